@@ -157,6 +157,25 @@ where
     preceded(many0(alt((comment, into_inner(multispace1)))), inner)
 }
 
+/// Parses a keyword that consists of several words, such as `OCTET STRING`.
+/// The words are separate lexical items (X.680 12.38), so any white space and any
+/// comments may stand between them.
+pub fn keywords<'a>(
+    words: &'static str,
+) -> impl Parser<Input<'a>, Output = &'a str, Error = ErrorTree<'a>> {
+    move |input: Input<'a>| {
+        let mut rest = input;
+        for (i, word) in words.split(' ').enumerate() {
+            rest = if i == 0 {
+                tag(word).parse(rest)?.0
+            } else {
+                skip_ws_and_comments(tag(word)).parse(rest)?.0
+            };
+        }
+        Ok((rest, words))
+    }
+}
+
 pub fn in_parentheses<'a, F>(
     inner: F,
 ) -> impl Parser<Input<'a>, Output = F::Output, Error = F::Error>
